@@ -152,6 +152,8 @@ def run_real(case, req=None):
     mw = ModeWrapper(dataset=w, mode=req)
     saved = mod.np
     mod.np = NpProxy(real_np, out["calls"])
+    # an unseeded wrapper derives its generator from the global numpy rng: pin it so that a recorded case replays
+    real_np.random.seed((case.get("gseed", 0) * 31 + sum(map(ord, req))) % (2 ** 31))
     try:
         res = mw[case["idx"]]
     except Exception as e:  # noqa
@@ -160,14 +162,17 @@ def run_real(case, req=None):
     finally:
         mod.np = saved
     out["res"] = "ok"
-    if req == "x class":
-        out["x"], out["cls"] = res
-    elif req == "class x":
-        out["cls"], out["x"] = res
-    elif req == "x":
-        out["x"], out["cls"] = res, None
-    else:
-        out["x"], out["cls"] = None, res
+    names = req.split(" ")
+    vals = list(res) if len(names) > 1 else [res]
+    out["x"], out["cls"], out["index"] = None, None, None
+    out["n_items_ok"] = len(vals) == len(names)
+    for nm, v in zip(names, vals):
+        if nm == "x":
+            out["x"] = v
+        elif nm == "class":
+            out["cls"] = v
+        elif nm == "index":
+            out["index"] = v
     return out
 
 
@@ -283,40 +288,69 @@ def explain(case, xs, x, cls):
     return out
 
 
+JOINT = ["x class", "class x", "index x class", "class index x", "x index class", "class x index"]
+
+
+def check_joint(case, layout, o, tag):
+    """the property statement on ONE joint request (image and label returned together), seeded or not:
+    untouched sample with its one-hot label, or ONE partner j and ONE weight l explaining both data and label"""
+    xs, x, cls = o["xs"], o["x"], o["cls"]
+    xi = xs[case["idx"]]
+    if not o.get("n_items_ok", True) or x is None or cls is None:
+        return Failure("mixwrapper:layout", f"request '{layout}' does not return one item per mode entry for {tag}", case, layout, None)
+    if "index" in layout.split(" ") and o["index"] != case["idx"]:
+        return Failure("mixwrapper:layout", f"request '{layout}' returns index {o['index']} for {tag}", case, case["idx"], o["index"])
+    if list(x.shape) != list(xi.shape):
+        return Failure("mixwrapper:shape", f"request '{layout}': returned sample has shape {list(x.shape)}, not the shape of sample idx for {tag}", case,
+                       list(xi.shape), list(x.shape))
+    if cls.ndim != 1 or len(cls) != case["n_classes"] or bool((cls < -1e-6).any()) or abs(float(cls.sum()) - 1) > 2e-5:
+        return Failure("mixwrapper:label-simplex", f"request '{layout}': label vector is not a non-negative vector summing to one for {tag}",
+                       case, 1.0, cls.tolist())
+    if not explain(case, xs, x, cls):
+        xr = explain(case, xs, x, None)
+        lr = explain(case, xs, None, cls)
+        return Failure("mixwrapper:not-convex-same-weight",
+                       f"request '{layout}': result is neither the untouched sample nor a convex combination with one partner and one weight "
+                       f"for data and label for {tag}", case, "x' = l*x_i+(1-l)*U(x_j), label' = l*e_ci+(1-l)*e_cj (same j, l)",
+                       {"layout": layout, "data_alone_(j,l)": xr[:4], "label_alone_(j,l)": lr[:4], "label": cls.tolist()})
+    if float_sum(case["ctor"]) == 1.0:
+        # probability one: every call must have drawn a partner and a weight (observable on the generator)
+        for c in o["calls"]:
+            kinds = [d["k"] for d in c["tape"]]
+            if len(kinds) < 3:
+                return Failure("mixwrapper:p-one-not-mixed", f"request '{layout}': probability-one configuration returned without drawing "
+                               f"partner and weight for {tag}", case, ["unif", "int", "beta"], kinds)
+    return None
+
+
 def oracle(case, joint=None):
-    """Failure or None; runs the real wrapper for the four request layouts"""
+    """Failure or None; runs the real wrapper for the joint layouts (both orders, with index) and the single-item layouts"""
     import torch
     if not in_domain(case):
         return None
     tag = (f"n={len(case['shapes'])} shapes={case['shapes']} unify={case['ctor'].get('unify')} p=({case['ctor'].get('mixup_p')},"
            f"{case['ctor'].get('cutmix_p')}) seed={case['seed']} idx={case['idx']}")
-    res = {r: run_real(case, r) for r in REQS}
-    j = res["x class"]
-    if j.get("ctor") != "ok" or j.get("res") != "ok":
-        return None     # deliberate rejections (assert / NotImplementedError for cutmix) are outcomes, not violations
-    xs, x, cls = j["xs"], j["x"], j["cls"]
-    xi = xs[case["idx"]]
-    if list(x.shape) != list(xi.shape):
-        return Failure("mixwrapper:shape", f"returned sample has shape {list(x.shape)}, not the shape of sample idx for {tag}", case,
-                       list(xi.shape), list(x.shape))
-    if cls.ndim != 1 or len(cls) != case["n_classes"] or bool((cls < -1e-6).any()) or abs(float(cls.sum()) - 1) > 2e-5:
-        return Failure("mixwrapper:label-simplex", f"label vector is not a non-negative vector summing to one for {tag}", case, 1.0, cls.tolist())
-    readings = explain(case, xs, x, cls)
-    if not readings:
-        xr = explain(case, xs, x, None)
-        lr = explain(case, xs, None, cls)
-        return Failure("mixwrapper:not-convex-same-weight",
-                       f"result is neither the untouched sample nor a convex combination with one partner and one weight for data and label for {tag}",
-                       case, "x' = l*x_i+(1-l)*U(x_j), label' = l*e_ci+(1-l)*e_cj", {"data_alone": xr[:4], "label_alone": lr[:4], "label": cls.tolist()})
-    if float_sum(case["ctor"]) == 1.0:
-        # probability one: a partner and a weight must have been drawn (observable on the generator)
-        kinds = [d["k"] for d in j["calls"][0]["tape"]] if j["calls"] else []
-        if len(kinds) < 3:
-            return Failure("mixwrapper:p-one-not-mixed", f"probability-one configuration returned without drawing partner and weight for {tag}",
-                           case, ["unif", "int", "beta"], kinds)
+    # the two orders always, plus two of the index layouts (chosen by the case, all of them when replaying a recorded case)
+    k = (case.get("gseed", 0) + case["idx"]) % 2
+    layouts = JOINT if case.get("all_layouts") else JOINT[:2] + [JOINT[2 + k], JOINT[4 + k]]
+    res = {}
+    for lay in layouts:
+        o = run_real(case, lay)
+        res[lay] = o
+        if o.get("ctor") != "ok":
+            return None     # rejected constructor call: an outcome, not a violation
+        if o.get("res") != "ok":
+            continue        # deliberate rejections (assert / NotImplementedError for a cutmix draw) are outcomes
+        f = check_joint(case, lay, o, tag)
+        if f is not None:
+            return f
     if case["seed"] is not None:
-        for r in REQS:
-            o = res[r]
+        j = res["x class"]
+        if j.get("res") != "ok":
+            return None
+        x, cls = j["x"], j["cls"]
+        for r in layouts[1:] + ["x", "class"]:
+            o = res[r] if r in res else run_real(case, r)
             if o.get("res") != "ok":
                 return Failure("mixwrapper:seeded-requests-differ", f"request '{r}' fails ({o.get('res')}) while 'x class' succeeds for {tag}", case, "ok", o.get("res"))
             if o["x"] is not None and not torch.equal(o["x"], x):
@@ -346,8 +380,8 @@ def gen_case(rng):
     ct = {"mixup_p": mp, "cutmix_p": cp, "mixup_alpha": rng.choice([0.8, 1.0, 0.3, 2.0]) if mp else None,
           "cutmix_alpha": rng.choice([1.0, 0.5]) if cp else None, "unify": unify if mp else None}
     case = {"shapes": shapes, "classes": classes, "n_classes": n_classes, "ctor": ct,
-            "seed": rng.choice([None, rng.randint(0, 10 ** 6), rng.randint(0, 50), rng.randint(0, 50)]),
-            "idx": rng.randrange(n), "req": rng.choice(REQS)}
+            "seed": rng.choice([None, None, rng.randint(0, 10 ** 6), rng.randint(0, 50), rng.randint(0, 50)]),
+            "gseed": rng.randint(0, 10 ** 6), "idx": rng.randrange(n), "req": rng.choice(REQS + ["class x"])}
     r = rng.random()
     if r < 0.10:
         k = rng.choice(["noprob", "sum_gt", "alpha_missing", "alpha_extra", "unify_without_mixup", "badunify", "shape_mismatch", "class_oob", "neg"])
@@ -385,7 +419,7 @@ def structured_cases():
                     seed += 1
                     out.append({"shapes": [[a0, a1], [b0, b1]], "classes": [0, 1], "n_classes": 2 + seed % 2,
                                 "ctor": {"mixup_p": 1.0, "cutmix_p": None, "mixup_alpha": 0.8, "cutmix_alpha": None, "unify": "pad_or_cut_end"},
-                                "seed": seed, "idx": seed % 2, "req": REQS[seed % 4]})
+                                "seed": None if seed % 3 == 0 else seed, "gseed": seed, "idx": seed % 2, "req": REQS[seed % 4]})
     for r3 in ([2, 1, 3], [1, 3, 2], [3, 2, 1]):
         for q3 in ([1, 2, 2], [3, 3, 3], [2, 1, 1]):
             seed += 1
@@ -453,7 +487,7 @@ class C11(PropertyCheck):
         cases, ncorp, nst = self.cases()
         res.rule = (f"{ncorp} corpus + {nst} structured cases (all 2-d extent pairs in 1..3 for sample/partner with pad_or_cut_end, 3-d triples) + seeded random "
                     "datasets (1..5 samples, rank 1..3, extents 1..4, 1..5 classes, p splits incl. cutmix, unify None/pad_or_cut_end, seeds incl. None, "
-                    "4 request layouts, rejected constructor calls / shape mismatch / class out of range); distinct = (rank, unify, split, seeded?, layout, "
+                    "4 request layouts in the correspondence, 4 joint layouts (both orders, with index) + single-item layouts in the oracle, rejected constructor calls / shape mismatch / class out of range); distinct = (rank, unify, split, seeded?, layout, "
                     "outcome, draw kinds per call, per-dimension pad/cut/equal pattern of the drawn partner)")
         res.exhaustive = False
         reals, reqs = [], []
